@@ -162,6 +162,10 @@ def planted_variants(g, copies):
     return c
 
 
+# clauses about aldy's own bookkeeping of indel support: exact, never explained by a realigner / placement mechanism
+EXACT_CLAUSES = ("fast_path_indel_support", "indel_table_is_realigner_count")
+
+
 def check_sample(res, db, copies, rl, depth, desc, params=None, truth=False):
     """Simulate, genotype, check. Returns True if the case was decided (precondition met).
 
@@ -179,21 +183,30 @@ def check_sample(res, db, copies, rl, depth, desc, params=None, truth=False):
         _check_sample(sub2, db, copies, rl, depth, desc, dict(params or {}, phase=False), truth)
         if not sub2.disc:
             for d in sub.disc:
+                if d["clause"] in EXACT_CLAUSES:
+                    continue
                 d["mech"] = "phase-nonsnp-site"
                 d["witness"]["holds_with_phase_off"] = True
+    realigner_on = (params or {}).get("indelpost") is not False
+    if not realigner_on:
+        # the three mechanisms below are about the realigner (its phasing, its counts, its placement rule); with the
+        # realigner off the equivalent placements of every catalogued indel are matched directly
+        # (a shiftable placement still leaves the per-base evidence at the catalogue's site inconsistent with the table)
+        sub._subsumed, sub._miscount = [], []
+        res._observables = {"subsumed": [], "miscount": [], "shifted": getattr(sub, "_shifted", None)}
     if sub.disc and getattr(sub, "_subsumed", None):
         for d in sub.disc:
-            if d["mech"] is None:
+            if d["mech"] is None and d["clause"] not in EXACT_CLAUSES:
                 d["mech"] = "cis-indels-subsumed"
                 d["witness"]["zero_support_indels"] = sub._subsumed
     if sub.disc and getattr(sub, "_miscount", None):
         for d in sub.disc:
-            if d["mech"] is None:
+            if d["mech"] is None and d["clause"] not in EXACT_CLAUSES:
                 d["mech"] = "indel-support-miscount"
                 d["witness"]["miscounted"] = sub._miscount
     if sub.disc and getattr(sub, "_shifted", None):
         for d in sub.disc:
-            if d["mech"] is None:
+            if d["mech"] is None and d["clause"] not in EXACT_CLAUSES:
                 d["mech"] = "shiftable-indel-site"
                 d["witness"]["shiftable_indels"] = sub._shifted
     for k, v in sub.clauses.items():
@@ -272,6 +285,11 @@ def _check_sample(res, db, copies, rl, depth, desc, params=None, truth=False):
                     if op in (0, 2, 7, 8):
                         c += n
             on = sites.get((m.pos, m.op), [0, 0])[1]
+            if (params or {}).get("indelpost") is False:
+                # realigner off: every read that carries the indel in any equivalent placement supports it
+                res.check("fast_path_indel_support", abs(on - truth) <= max(2, 0.05 * truth),
+                          "with the realigner off the support of a planted indel is not the number of reads carrying it",
+                          indel=str(m), reads_carrying_it=truth, support=on, **desc)
             if "count" in raw.get((m.pos, m.op), {}):
                 on = raw[m.pos, m.op]["count"][1]  # the realigner's own count, before aldy's bookkeeping
             # (zero support is a different thing - the indel was skipped, not miscounted)
